@@ -218,7 +218,7 @@ def decode_group(data):
                 c['cemented_commitment'] = B.encode(r.take(32), 'src1')
                 c['output_proof'] = r.dyn().hex()
             g['contents'].append(c)
-    except (ValueError, UnicodeDecodeError, P.ParseError) as e:
+    except (ValueError, UnicodeDecodeError, P.ParseError, P.Uncertain) as e:
         raise DecodeError(str(e))
     return g
 
